@@ -224,6 +224,7 @@ class Overlay(AbstractImageMesh):
             grid_scaled_2d_slim=unmasked_overlay_grid,
             shape_native=mask.shape_native,
             pixel_scales=mask.pixel_scales,
+            origin=mask.origin,
         ).astype("int")
 
         total_pixels = total_pixels_2d_from(
